@@ -120,7 +120,10 @@ def gen_design(r, cfg):
                     inst = {"id": iid, "name": _orig(r, iid, inames), "of": (tl, tc["id"]), "props": []}
                     for _ in range(r.choice([0, 0, 1, 2])):
                         pk = _ident(r, set(), 3)
-                        val = r.choice(["8'h0F", "hello world", "", "a(b)", 3, 0, -12, 99999999999, True, False])
+                        val = r.choice(["8'h0F", "hello world", "", "a(b)", 3, 0, -12, 99999999999, True, False,
+                                        # long strings as tools write them (paths, wide INIT values, build stamps)
+                                        "C:/Users/someone/Documents/project_x/sources/very/long/path/to/a_file.v",
+                                        "256'h" + "0" * 60 + "FF00", "Built on 'Thu Dec  6 23:38:27 MST 2018' by tool (x)"])
                         pr = {"id": pk, "value": val}
                         if r.random() < 0.3:
                             pr["orig"] = pk + "[0]"
@@ -177,7 +180,9 @@ def gen_design(r, cfg):
                 cell["nets"].append(net)
             lib["cells"].append(cell)
             all_cells.append((li, cell))
+        _cross_name(r, lib["cells"], 0.2)    # a cell NAMED like a renamed sibling's identifier (cellRefs go by identifier)
         libs.append(lib)
+    _cross_name(r, libs, 0.2)                # the same among the libraries (libraryRefs go by identifier)
     # top: a cell nobody instantiates if possible, else the last one
     used = set((inst["of"]) for _, c in all_cells for inst in c["instances"])
     roots = [(li, c) for li, c in all_cells if (li, c["id"]) not in used]
